@@ -121,6 +121,8 @@ type zzStream struct {
 	reads  int
 	errEOF bool // at the end: io.EOF (true) or a transport error (false)
 	whole  bool // hand out as much as fits (no arbitrary chunking)
+	partial int // with whole: number of reads that may still return an arbitrary smaller chunk
+	coarse  bool // partial chunk sizes come from {1, 2, 5, max-1} instead of every size
 }
 
 var zzErrCut = &net.OpError{Op: "read", Err: io.ErrClosedPipe}
@@ -141,6 +143,25 @@ func (s *zzStream) Read(p []byte) (int, error) {
 	n := max
 	if !s.whole {
 		n = 1 + zzverif.Choice(max)
+	} else if s.partial > 0 && max > 1 {
+		s.partial--
+		if s.coarse {
+			switch zzverif.Choice(5) {
+			case 0:
+				n = 1
+			case 1:
+				n = 2
+			case 2:
+				n = 5
+			case 3:
+				n = max - 1
+			}
+			if n > max {
+				n = max
+			}
+		} else {
+			n = 1 + zzverif.Choice(max)
+		}
 	}
 	copy(p, s.data[s.pos:s.pos+n])
 	s.pos += n
